@@ -65,8 +65,19 @@ impl Subset for Colr<'_> {
             .transpose()
             .map_err(|_| SubsetError::SubsetTableError(Colr::TAG))?
         {
-            Offset32::serialize_subset(&var_store, s, plan, &plan.colr_varstore_inner_maps, 30)
-                .map_err(|_| SubsetError::SubsetTableError(Colr::TAG))?;
+            // the retained glyphs may use no variable paint at all: the store subsets to empty
+            match Offset32::serialize_subset(
+                &var_store,
+                s,
+                plan,
+                &plan.colr_varstore_inner_maps,
+                30,
+            ) {
+                Ok(()) | Err(SerializeErrorFlags::SERIALIZE_ERROR_EMPTY) => (),
+                Err(_) => {
+                    return Err(SubsetError::SubsetTableError(Colr::TAG));
+                }
+            }
         }
 
         // BaseGlyphList offset pos = 14
